@@ -5,6 +5,7 @@ import S2T.Model.TempScope
 import S2T.Model.Cells
 import S2T.Gen.GlobalWrites
 import S2T.Props.C15_Conc
+import S2T.Props.C15_Settings
 /-!
 # C15 — Isolation: results independent of history and of concurrent work
 
@@ -21,7 +22,9 @@ Parts:
      (open known finding `aes.provider-patch-not-restored`, `_partial` + counterexample);
 * §4 the temporary directory of the 7z generator under every consumer behaviour (`S2T.TempScope`);
 * §5 closed world: every global write found in the current source is one of the cells above;
-* §6–§8 (`Props/C15_Conc.lean`) the round-key cache under concurrent use, cache keys, generated key / lock facts.
+* §6–§8 (`Props/C15_Conc.lean`) the round-key cache under concurrent use, cache keys, generated key / lock facts;
+* §9 (`Props/C15_Settings.lean`) save / set / restore sections around interpreter-global settings, registries extended at
+     import time: model, counterexamples for the unsynchronised protocol, generated 'no such writer' facts.
 -/
 namespace S2T.C15
 open S2T.Patch S2T.Patch.Pc
